@@ -215,7 +215,7 @@ func strLit(s string) string {
 var identLike = func(s string) bool { return oper.IsIdentOp(s) }
 var kwOps = map[string]bool{"and": true, "or": true, "not": true}
 
-func atomic(j J) bool {
+func atomicNode(j J) bool {
 	switch j["k"] {
 	case "num", "str", "bool", "time", "list", "map", "obj", "id":
 		return true
@@ -230,7 +230,7 @@ func atomic(j J) bool {
 
 func paren(j J, style int) string {
 	s := renderSrc(j, style)
-	if atomic(j) {
+	if atomicNode(j) {
 		return s
 	}
 	return "(" + s + ")"
